@@ -79,6 +79,9 @@ func sortOfKind(k Kind) string {
 	case KBool:
 		return "Bool"
 	case KF32:
+		if !gBV {
+			return "Real" // outside 'mode bv64' a float32 is carried by its exact real value (no float32 arithmetic)
+		}
 		return "(_ FloatingPoint 8 24)"
 	case KF64:
 		return "Real"
